@@ -22,7 +22,7 @@ class C17(Prop):
 
     def cases(self, rng, tier):
         out = []
-        n = 250 if tier == 'quick' else 6000
+        n = 600 if tier == 'quick' else 6000
         for _ in range(n):
             k = rng.randint(1, 4)
             out.append({'rounds': [{'cause': rng.choice(['eof', 'error', 'timeout', 'healthy']), 'pending_rr': rng.randint(0, 2), 'pending_stream': rng.randint(0, 1),
